@@ -24,6 +24,8 @@ struct N {
     row_idx: usize,
 }
 
+thread_local! { static LEXCANDS: std::cell::RefCell<Vec<(usize, usize, u32)>> = std::cell::RefCell::new(vec![]); }
+
 /// whether the warm-up result is collected (deterministic in the text; both ways occur)
 fn rng_bit(t: &str) -> bool { t.len() % 2 == 0 }
 
@@ -79,7 +81,22 @@ through the verif hook before (complete previous state: all allocated rows, size
             let lens = lat.verif_row_lens();
             let rows = lat.verif_rows();
             let eos = lat.verif_eos();
-            let nchars = tok.verif_input().verif_tables().mod_chars.len();
+            let tabs = tok.verif_input().verif_tables();
+            let nchars = tabs.mod_chars.len();
+            // the dictionary candidates as the LEXICON gives them (not as the lattice holds them): every indexed entry that is
+            // a prefix of the normalised text at a character position and ends where a word may begin (or at the end)
+            let mut lexcands: Vec<(usize, usize, u32)> = vec![];
+            {
+                let bytes = tabs.modified.as_bytes();
+                for cb in 0..nchars {
+                    let bo = tabs.mod_c2b[cb];
+                    for e in dic.lexicon().lookup(bytes, bo) {
+                        let ok_end = e.end >= bytes.len() || tabs.mod_bow.get(e.end).copied().unwrap_or(true);
+                        if ok_end && e.end <= bytes.len() { lexcands.push((cb, tabs.mod_b2c[e.end.min(bytes.len())], e.word_id.as_raw())); }
+                    }
+                }
+            }
+            LEXCANDS.with(|c| *c.borrow_mut() = lexcands);
             let outcome = match &r { Ok(()) => "ok".to_string(), Err(e) => err_class(e) };
             let mut morph_costs = vec![];
             if r.is_ok() && nchars > 0 {
@@ -269,6 +286,35 @@ through the verif hook before (complete previous state: all allocated rows, size
                 }
                 (None, None) => {}
                 (a, b) => fail = Some(("connected".into(), format!("implementation eos {:?}, reference {:?}", a.map(|x| x.2), b))),
+            }
+        }
+        // the search must also be optimal over the candidates the LEXICON offers (a candidate dropped before the search never
+        // shows in the lattice rows): dictionary words from a lookup of our own + the OOV nodes of the lattice
+        if fail.is_none() && full {
+            let lexc: Vec<(usize, usize, u32)> = LEXCANDS.with(|c| c.borrow().clone());
+            let mut all: Vec<(usize, usize, usize, usize, i64)> = vec![]; // b, e, l, r, cost
+            for nd in nodes.iter() { let wid = WordId::from_raw(nd.wid); if wid.is_oov() || wid.is_special() { all.push((nd.b, nd.e, nd.l, nd.r, nd.c)); } }
+            for (b, e, wid) in &lexc {
+                let (pl, pr, pc) = dic.lexicon().get_word_param(WordId::from_raw(*wid));
+                all.push((*b, *e, pl as u16 as usize, pr as u16 as usize, pc as i64));
+            }
+            run.bump_by("lexicon-candidates", lexc.len() as u64);
+            // reachability as the builder sees it: a position is processed only if some node ends there
+            let mut bestl: Vec<Option<i64>> = vec![None; all.len()];
+            let mut ord: Vec<usize> = (0..all.len()).collect();
+            ord.sort_by_key(|&i| (all[i].0, all[i].1));
+            for &i in &ord {
+                let (b, _e, l, _r, c) = all[i];
+                let mut m: Option<i64> = if b == 0 { Some(conn(0, l) + c) } else { None };
+                for &j in &ord { if all[j].1 == b { if let Some(t) = bestl[j] { let v = t + conn(all[j].3, l) + c; if m.map_or(true, |x| v < x) { m = Some(v); } } } }
+                bestl[i] = m;
+            }
+            let mut lex_eos: Option<i64> = None;
+            for (i, x) in all.iter().enumerate() { if x.1 == nchars { if let Some(t) = bestl[i] { let v = t + conn(x.3, 0); if lex_eos.map_or(true, |y| v < y) { lex_eos = Some(v); } } } }
+            if let (Some(e), Some(d)) = (eos, lex_eos) {
+                if d < e.2 as i64 {
+                    fail = Some(("lexicon-candidates".into(), format!("final path cost {} but a sequence of DICTIONARY candidates (own lexicon look-up) + OOV candidates costs {}: a candidate never reached the lattice", e.2, d)));
+                }
             }
         }
         // brute force for small lattices
